@@ -270,6 +270,11 @@ inductive JsonRes where
   | ok (schema : Fields) (recs : List (List Value))
   deriving Repr
 
+/-- column pruning (cyclic mask over the schema fields, which are sorted by name) -/
+def keepFields (keep : List Bool) (schema : Fields) : Fields :=
+  if keep.isEmpty then schema
+  else (schema.zipIdx.filter fun p => keep.getD (p.2 % keep.length) true).map (·.1)
+
 /-- Creator, then `Run` with the full inferred schema; the records are in line order (`Octo.C23.reorder_correct`) -/
 def jsonRun (rows : List J) : JsonRes :=
   match jsonCreate rows with
@@ -279,6 +284,17 @@ def jsonRun (rows : List J) : JsonRes :=
     match allSome (rows.map (rowValues schema)) with
     | some recs => .ok schema recs
     | none => .errRun schema
+
+/-- … with a pruned schema -/
+def jsonRunKeep (keep : List Bool) (rows : List J) : JsonRes :=
+  match jsonCreate rows with
+  | .error => .errCreate
+  | .fuel => .fuel
+  | .ok schema =>
+    let schema' := keepFields keep schema
+    match allSome (rows.map (rowValues schema')) with
+    | some recs => .ok schema' recs
+    | none => .errRun schema'
 
 /-! ### Specification: a value carries what the JSON value contains; a JSON value is representable in a type -/
 
